@@ -384,6 +384,10 @@ def c08(run):
     units.trace_unit(run, [c for c in cases if c.status == "ok"], rng, per_case=16 if q else 32, tag="edits",
                      bufsizes=(0, 0, 1, 2, 3, 8, 16), scheds=[[1], [2, 1], [], [5]],
                      script_modes=("random", "random", "moreless"), maxops=40)
+    # yyinput() running into the end of a buffer: its end-of-input value only "after yywrap processing" - with a scripted
+    # yywrap() that stops, re-points yyin, switches to file / in-memory buffers or pops back (the buffer scenarios of C11)
+    wcases = units.product_unit(run, fd, srcs[:10 if q else 30], [{"userwrap": True, "yymore": True}, {"userwrap": True, "flavour": "c99"}], tag="wrapproduct", san=True)
+    units.trace_unit(run, [c for c in wcases if c.status == "ok"], rng, per_case=10 if q else 20, tag="inputwrap", job_filter=buffer_jobs("buf"), scripts=False)
     mc.result()
 
 
